@@ -19,22 +19,6 @@ theorem bleedbox_cap_not_linear :
     mediaBox (scale 2) page20 = ⟨-30, -30, 180, 180⟩ ∧ trimBox (scale 2) page20 = ⟨0, 0, 150, 150⟩ := by
   decide +kernel
 
-def twoPages : Document := ⟨[⟨100, 80, ⟨0, 0, 0, 0⟩, [], [], []⟩, ⟨100, 80, ⟨0, 0, 0, 0⟩, [], [], []⟩], 1, 2, 3, true⟩
-
-def unboundLocal (r : Except PyErr PdfOut) : Bool :=
-  match r with
-  | .error (.noneAttribute "UnboundLocalError:pdfua.page_number") => true
-  | _ => false
-
-/-- The empty selection of a rendered document is written without trouble as a plain PDF, but as `pdf/ua-1` it
-fails: `pdfua` enumerates the page streams and then reads the loop variable `page_number`, unbound when there was no
-page (`UnboundLocalError`).  (`generate_pdf` with `pdf/ua-1` is therefore total only for non-empty page lists.) -/
-theorem pdfua_empty_selection_fails :
-    (generatePdf 1 false (copy twoPages (.pages []))).toBool = true ∧
-    unboundLocal (generatePdf 1 true (copy twoPages (.pages []))) = true ∧
-    (generatePdf 1 true (copy twoPages (.pages (twoPages.pages.take 1)))).toBool = true := by
-  decide +kernel
-
 section cache
 open Wp.ImageCache
 
